@@ -21,7 +21,7 @@ var tcBuiltins = map[string]bool{"len": true, "typeof": true, "has": true, "del"
 	"min": true, "max": true, "pow": true, "atan2": true, "upper": true, "lower": true, "trim": true, "replace": true, "str2num": true,
 	"move": true, "line": true, "rect": true, "circle": true, "width": true, "color": true, "colour": true, "stroke": true, "fill": true,
 	"linecap": true, "text": true, "clear": true, "grid": true, "gridn": true, "dash": true, "ellipse": true, "hsl": true,
-	"printf": true, "sprintf": true, "repr": true, "split": true, "rand": true, "rand1": true}
+	"printf": true, "sprintf": true, "repr": true, "split": true, "rand": true, "rand1": true, "test": true}
 
 // tcFragment reports whether a program uses only what Spec/WellTyped.lean types, and if not, why.
 func tcFragment(prog *parser.Program) (bool, string) {
@@ -44,7 +44,7 @@ func tcFragment(prog *parser.Program) (bool, string) {
 		}
 		switch n := n.(type) {
 		case *parser.EventHandlerStmt:
-			reason = "event handler"
+			walkList(n.Body.Statements)
 		case *parser.FuncDefStmt:
 			if n.VariadicParam != nil {
 				reason = "variadic function"
@@ -200,7 +200,7 @@ func c02TypeCheck(r *Report, d *Driver, srcs []string) (asked, inFrag, okN int) 
 // TcProbe: development aid.
 func TcProbe(d *Driver, n int) {
 	rng := Rng()
-	o := GenOpts{Funcs: true, Any: true, Maps: true, Strings: true, NonAscii: true, Special: true, Builtins: true}
+	o := GenOpts{Funcs: true, Any: true, Maps: true, Strings: true, NonAscii: true, Special: true, Builtins: true, Tests: true}
 	stats := map[string]int{}
 	shown := 0
 	for i := 0; i < n; i++ {
@@ -251,6 +251,7 @@ func tcHandWritten() []string {
 		"x := str2num \"12\"\ny := str2num \"zz\"\nb := str2bool \"true\"\nprint x y b err errmsg\nm := {a:1}\nif has m \"a\"\n    del m \"a\"\nend\nprint m (abs -2) (floor 2.5) (ceil 2.5) (round 2.5) (sqrt 4) (min 1 2) (max 1 2) (pow 2 3) (sin 0) (cos 0) (log 1) (atan2 1 1)\n",
 		"move 10 20\nline 30 40\nrect 5 5\ncircle 3\nwidth 2\ncolor \"red\"\ncolour \"blue\"\nstroke \"green\"\nfill \"none\"\nlinecap \"round\"\ntext \"hi\"\nclear\nclear \"white\"\ngrid\ngridn 5 \"gray\"\ndash 1 2\ndash\nellipse 1 2 3\nellipse 1 2 3 4 5 6 7\nprint (hsl 10) (hsl 10 20 30 40)\n",
 		"printf \"%v %s\\n\" 1 \"a\"\ns := sprintf \"%5.2f|%v\" 1.5 [1 2]\nr := repr \"a\" [1] {k:true}\nw := split \"a,b\" \",\"\nn := (rand 5) + (rand1)\nprint s r w (len w) (n < 10)\n",
+		"test true\ntest 1 1\ntest [1] [1] \"arrays\"\ntest \"a\" \"a\"\nx := 0\non key k:string\n    x = x + (len k)\n    print k x\nend\non down x1:num _:num\n    print x1\nend\non animate\n    x = x + 1\nend\n",
 		"cls\nsleep 0\nl := read\nprint l\nif l == \"x\"\n    panic \"boom\"\nend\nexit 3\n",
 		"x := [] + [1]\ny := [[]] + [[2]]\nprint x y [] {}\n",
 	}
